@@ -214,18 +214,35 @@ func VerifCancelRestores() {
 		dev.applyPayload(sc, env.tgt.Updates[0], env.tgt.Deletes[0], "C05")
 	}
 	setsBefore := env.tgt.Sets
-	if verifrt.Choice("end", 2) == 0 {
+	payloadsBefore := len(env.tgt.Updates)
+	ends := 2
+	if verifrt.Param("retry", 0) == 1 {
+		ends = 3
+	}
+	switch verifrt.Choice("end", ends) {
+	case 0:
 		cerr := env.ds.TransactionCancel(context.Background(), "t1")
 		verifrt.Assert(cerr == nil, "C05-cancel-accepted")
-	} else {
+	case 1:
 		verifrt.AwaitQuiescence()
 		verifrt.Advance(vTxnTimeout + 200*time.Millisecond)
 		verifrt.AwaitQuiescence()
+	case 2:
+		// the device refuses the rollback of the first cancel (an error is returned, the
+		// transaction stays open); the client repeats the cancel, which must restore everything
+		env.tgt.FailSet = env.tgt.Sets + 1
+		cerr := env.ds.TransactionCancel(context.Background(), "t1")
+		env.tgt.FailSet = 0
+		verifrt.Assert(cerr != nil, "C05-cancel-reports-device-failure")
+		verifrt.Reach("first-cancel-failed")
+		setsBefore = env.tgt.Sets
+		cerr = env.ds.TransactionCancel(context.Background(), "t1")
+		verifrt.Assert(cerr == nil, "C05-repeated-cancel-accepted")
 	}
 	verifrt.Reach("ended")
 	verifrt.Assert(env.tgt.Sets == setsBefore+1, "C05-one-rollback-sent")
-	if env.tgt.Sets == setsBefore+1 {
-		dev.applyPayload(sc, env.tgt.Updates[setsBefore], env.tgt.Deletes[setsBefore], "C05")
+	if len(env.tgt.Updates) == payloadsBefore+1 {
+		dev.applyPayload(sc, env.tgt.Updates[payloadsBefore], env.tgt.Deletes[payloadsBefore], "C05")
 	}
 	// device: every path back to value-or-absence from before
 	for _, l := range sc.leaves {
